@@ -217,6 +217,38 @@ def rule_resid_term(F, ev, R, config, rule="R-RESID-TERM"):
                         ok = True
             elif Rm and Rm[0] == "call" and Rm[1] == "std::ops::Sub::sub":
                 msg = "residual sign/operands differ: %s" % short(Rm)[:200]
+            if not ok and Rm is not None and C is not None and svd_t and svd_ctor_term(svd_t):
+                # the same value in another association or through an in-place kernel (`W·(Φ·C)`, `r.gemm(−1, Φ_w, C, 1)`):
+                # compare normal forms — Y_w − X·C with X the decomposed matrix and C the cached coefficients as atoms
+                import nf as nfmod
+                from rules_panic import nosite
+                N = nfmod.NF()
+                svdX = svd_ctor_term(svd_t)[0]
+                me = ("param", b.key, 1)
+                Yw = ("field", me, roles["data"])
+
+                def unclone(t):
+                    if isinstance(t, tuple) and t and t[0] == "call" and t[1] in ("std::clone::Clone::clone", "nalgebra::Matrix::clone_owned", "nalgebra::Matrix::into_owned") and len(t[3]) == 1:
+                        return unclone(t[3][0])
+                    if isinstance(t, tuple):
+                        return tuple(unclone(x) if isinstance(x, tuple) else x for x in t)
+                    return t
+                catom = ("C-cached",)
+                def sub_c(t):
+                    if t == C:
+                        return catom
+                    if isinstance(t, tuple):
+                        return tuple(sub_c(x) if isinstance(x, tuple) else x for x in t)
+                    return t
+                try:
+                    # call sites are kept: the basis matrix of the residuals must be the very evaluation that was
+                    # decomposed, not a second call of the model
+                    got = N.nf(unclone(sub_c(Rm)))
+                    want = nfmod.add(N.nf(Yw), nfmod.mul(N.nf(unclone(svdX)), N.atom(catom)), -1)
+                    if got == want:
+                        ok = True
+                except RecursionError:
+                    pass
             R.add(rule, config, b.key, "resid=Yw-(WPhi)C@" + fl, ok, "" if ok else msg, s.get("span"))
     R.floor(rule, config, 1 if not config.endswith("parallel") else 2, "one per set_params impl")
 
